@@ -97,6 +97,9 @@ class Gen(object):
         if name in ("cabinet", "frame"):
             return r.choice([0, 0, 0, 1, 1, 1, 1, 2])
         if name == "board":
+            if method in ("set_power", "set_led") and r.random() < 0.2:
+                # these two accept a sequence of boards (oracle only: the model's values are scalars)
+                return {"seq": r.sample(range(6), r.randint(1, 3))}
             return r.choice([0, 1, 2, 3, 3, 5])
         if name == "link":
             return r.randrange(6)
@@ -189,6 +192,9 @@ class Gen(object):
                     ops.append(self.app(cls, methods, ctl, inforce, depth))
                     continue
                 pos, kw, shape = self.call(cls, m, ctl, inforce)
+                if any(isinstance(v, dict) and v["t"] % 4 in (1, 2) for v in pos[:1] + [b for a, b in kw if a == "state"]) \
+                        and m in ("count_cores_in_state", "wait_for_cores_to_reach_state"):
+                    shape.append("sequence-of-states")
                 ops.append(["call", m, pos, kw, r.random() < 0.15])
                 self.shapes.append((m, shape))
             elif u < 0.75:
@@ -337,30 +343,17 @@ def entry_matches(w, e, full=True):
 
 
 def outcome_agrees(model, trace, exc):
-    """-> None or a description of the difference"""
+    """-> None or a description of the difference.  The model lists EVERY command of the call."""
     wires, err = model
-    if not wires:
-        if err == 0:
-            return None if (not trace and exc is None) else "model: nothing sent, no error"
-        if trace:
-            return "model: rejected before anything is sent (%s)" % ERRS.get(err, err)
-        if ERRS.get(err) != exc:
-            return "model: %s" % ERRS.get(err, "error %d" % err)
-        return None
-    if not trace:
-        return "model sends %d key command(s), implementation sent nothing" % len(wires)
-    if not entry_matches(wires[0], trace[0]):
-        return "first command differs"
-    at = 0
-    for w in wires[1:]:
-        nxt = [i for i in range(at + 1, len(trace)) if entry_matches(w, trace[i], full=False)]
-        if not nxt:
-            return "a later key command of the model does not occur"
-        at = nxt[0]
-        if not entry_matches(w, trace[at]):
-            return "a later key command differs"
+    if len(wires) != len(trace):
+        return "model sends %d command(s), implementation sent %d" % (len(wires), len(trace))
+    for k, (w, e) in enumerate(zip(wires, trace)):
+        if not entry_matches(w, e):
+            return "command %d differs" % k
     if err != 0 and ERRS.get(err) != exc:
-        return "model: %s after %d command(s)" % (ERRS.get(err, err), len(wires))
+        return "model: %s after %d command(s)" % (ERRS.get(err, "error %d" % err), len(wires))
+    if err == 0 and exc is not None:
+        return "model: no exception"
     return None
 
 
@@ -614,7 +607,9 @@ class Oracle(object):
                 self.fail("not-rejected:" + m, "BMP %s: %s, but the call %s" % (m, r, "raised " + exc if exc else "was accepted"))
             return
         cab, fr, bd = res["cabinet"], res["frame"], res["board"]
-        if not all(is_int(v) and not isinstance(v, bool) for v in (cab, fr, bd)):
+        boards = bd["seq"] if isinstance(bd, dict) and "seq" in bd else [bd]
+        bd = boards[0]
+        if not all(is_int(v) and not isinstance(v, bool) for v in [cab, fr] + boards):
             return
         look = 0 if m == "set_power" else bd
         conns = dict((tuple(k), i) for k, i in self.case["ctl"]["bmp"])
@@ -633,8 +628,8 @@ class Oracle(object):
                       % (m, cab, fr, bd, e[0], want_c))
         if e[2:5] != [0, 0, look]:
             self.fail("wrong-board:" + m, "BMP %s: destination %r, resolved board %r" % (m, e[2:5], bd))
-        if m in ("set_power", "set_led") and e[7] != (1 << bd):
-            self.fail("wrong-board:" + m, "BMP %s: board mask %r, resolved board %r" % (m, e[7], bd))
+        if m in ("set_power", "set_led") and e[7] != sum(1 << b for b in boards):
+            self.fail("wrong-board:" + m, "BMP %s: board mask %r, resolved board(s) %r" % (m, e[7], boards))
 
     # -- walking the history alongside the implementation's events
     def run(self, ops):
@@ -817,6 +812,9 @@ def run(chk, args):
             elif e[0] == "stack" and e[1] == "exit":
                 chk.count("block-exits")
         chk.count("raised-at-top:" + str(o["raised"]))
+        for e in o["events"]:
+            if e[0] in ("call", "stop"):
+                chk.count("commands-per-call:%s" % min(len(e[2] if e[0] == "call" else e[1]), 6))
         chk.count("class:" + c["cls"])
         chk.count("geometry:" + ("known" if c["ctl"]["width"] and c["ctl"]["height"] and c["ctl"]["root"]
                                  else "unknown") if c["cls"] == "MC" else "bmp-connections:%d" % len(c["ctl"]["bmp"]))
@@ -838,7 +836,8 @@ def run(chk, args):
             header = ("From Coq Require Import ZArith List String. Import ListNotations.\n"
                       "Require Import Rig.Model.Base Rig.Generated.GenSignatures Rig.Model.Context.\n"
                       "Open Scope string_scope. Open Scope list_scope. Open Scope Z_scope.\n")
-            idx = [i for i, o in enumerate(outs) if isinstance(o, dict)]
+            idx = [i for i, o in enumerate(outs) if isinstance(o, dict) and '"seq"' not in json.dumps(cases[i]["ops"])]
+            chk.count("oracle-only-histories(board sequences)", len(outs) - len(idx))
             vals = chk.coq_eval(header, [coq_case(cases[i]) for i in idx], shard=60)
             bad = 0
             for i, v in zip(idx, vals):
